@@ -356,6 +356,15 @@ func FromChannel[T any](in <-chan T) Observable[T] {
 
 		go recoverUnhandledError(func() {
 			for {
+				// Unsubscription has priority over a value that is ready at the same time:
+				// a plain select picks at random and could keep draining the channel
+				// (values other readers should get) long after Unsubscribe returned.
+				select {
+				case <-done:
+					return
+				default:
+				}
+
 				select {
 				case item, ok := <-in:
 					if !ok {
